@@ -946,7 +946,7 @@ class TaskPool(BaseTaskPool):
                     "create coroutine: %s(*%s, **%s)",
                     str(e.__class__.__name__),
                     group_name,
-                    func.__name__,
+                    getattr(func, "__name__", repr(func)),
                     repr(args),
                     repr(kwargs),
                 )
@@ -1174,7 +1174,7 @@ class TaskPool(BaseTaskPool):
                     "create coroutine: %s(%s%s)",
                     str(e.__class__.__name__),
                     group_name,
-                    func.__name__,
+                    getattr(func, "__name__", repr(func)),
                     "*" * arg_stars,
                     str(next_arg),
                 )
@@ -1576,7 +1576,7 @@ class SimpleTaskPool(BaseTaskPool):
                     "create coroutine: %s(*%s, **%s)",
                     str(e.__class__.__name__),
                     str(self),
-                    self._func.__name__,
+                    getattr(self._func, "__name__", repr(self._func)),
                     repr(self._args),
                     repr(self._kwargs),
                 )
